@@ -227,6 +227,7 @@ func (reg *ResourceRegistry) GetSelectedVersions() (versions map[string]string) 
 	reg.RLock()
 	defer reg.RUnlock()
 
+	versions = make(map[string]string, len(reg.resources))
 	for _, res := range reg.resources {
 		res.Lock()
 		versions[res.Identifier] = res.SelectedVersion.VersionNumber
